@@ -7,6 +7,7 @@ import (
 	"time"
 
 	"golang.org/x/sync/errgroup"
+	"google.golang.org/protobuf/proto"
 
 	"github.com/canopy-network/canopy/bft"
 	"github.com/canopy-network/canopy/fsm"
@@ -266,7 +267,9 @@ func (c *Controller) CommitCertificate(qc *lib.QuorumCertificate, block *lib.Blo
 		c.FSM.Reset()
 		// restore root dex cache from the embedded certificate result for deterministic replay
 		if qc.Results != nil && qc.Results.RootDexBatch != nil {
-			c.FSM.SetRootDexCache(qc.Results.RootDexBatch)
+			// NOTE: hand the state machine a copy - execution normalizes the cached batch in place (DexBatch.Hash() fills in the
+			// receipt hash of an empty batch), and the certificate must be indexed and gossiped exactly as it was certified
+			c.FSM.SetRootDexCache(proto.Clone(qc.Results.RootDexBatch).(*lib.DexBatch))
 		}
 		// apply the block against the state machine
 		blockResult, err = c.ApplyAndValidateBlock(block, true)
@@ -381,7 +384,9 @@ func (c *Controller) CommitCertificateParallel(qc *lib.QuorumCertificate, block 
 		c.FSM.Reset()
 		// restore root dex cache from the embedded certificate result for deterministic replay
 		if qc.Results != nil && qc.Results.RootDexBatch != nil {
-			c.FSM.SetRootDexCache(qc.Results.RootDexBatch)
+			// NOTE: hand the state machine a copy - execution normalizes the cached batch in place (DexBatch.Hash() fills in the
+			// receipt hash of an empty batch), and the certificate must be indexed and gossiped exactly as it was certified
+			c.FSM.SetRootDexCache(proto.Clone(qc.Results.RootDexBatch).(*lib.DexBatch))
 		}
 		// apply the block against the state machine
 		if blockResult, err = c.ApplyAndValidateBlock(block, true); err != nil {
